@@ -667,3 +667,76 @@ Definition service_writes (fixed_flatten fixed_analyser : bool) (s : svc) : list
 (** the call as actions: one creation, then each mutator applied to the new object or to the given object [old] *)
 Definition actions_of (base old : nat) (l : list (string * recv)) : list action :=
   Alloc :: map (fun sr => match snd sr with RFresh => Write base 1 | RGiven => Write old 1 end) l.
+
+(** * 14. Per-instance state: what survives in a service object from one call to the next
+
+    Every service keeps its state in a private implementation class.  The regenerated table
+    LCGen.GlobalSites.instance_members lists every member variable of those classes with whether it is assigned / cleared
+    unconditionally at the head of the top-level call; [classify] says, for each, why it cannot make a result depend on
+    earlier calls.  A member that is not listed here is [MUnknown], which Properties_C12 refutes — so a new member has to be
+    classified (and, if it is per-call scratch, reset) before the obligations check again. *)
+Inductive mclass :=
+| MBackRef       (* pointer to the owning public object *)
+| MReset         (* per-call scratch: (re)initialised unconditionally at the head of every top-level call *)
+| MDocumented    (* state the public API documents and sets: strictness, profile, model of a generator / annotator, external
+                    variables, the importer's library and import list *)
+| MConst         (* set in the constructor, never written again *)
+| MConstCache    (* a cache whose entries depend on the key alone (standard units by name) *)
+| MDerived       (* a cache of a function of documented state, guarded by a hash of that state (the annotator's id list) *)
+| MCounter       (* a counter that only grows (the annotator's automatic-id counter): deliberately history dependent *)
+| MUnknown.
+
+Definition classify (cls member : string) : mclass :=
+  if String.eqb cls "Logger::LoggerImpl" then
+    (if String.eqb member "mErrors" || String.eqb member "mWarnings" || String.eqb member "mMessages" || String.eqb member "mIssues"
+     then MReset else MUnknown)
+  else if String.eqb cls "Parser::ParserImpl" then
+    (if String.eqb member "mParser" then MBackRef
+     else if String.eqb member "mParsing1XVersion" || String.eqb member "mParsing20Version" then MReset else MUnknown)
+  else if String.eqb cls "Validator::ValidatorImpl" then (if String.eqb member "mValidator" then MBackRef else MUnknown)
+  else if String.eqb cls "Analyser::AnalyserImpl" then
+    (if String.eqb member "mAnalyser" then MBackRef
+     else if String.eqb member "mModel" || String.eqb member "mInternalVariables" || String.eqb member "mInternalEquations"
+             || String.eqb member "mCiCnUnits" then MReset
+     else if String.eqb member "mExternalVariables" then MDocumented
+     else if String.eqb member "mGeneratorProfile" then MConst
+     else if String.eqb member "mStandardUnits" then MConstCache else MUnknown)
+  else if String.eqb cls "Generator::GeneratorImpl" then
+    (if String.eqb member "mCode" then MReset
+     else if String.eqb member "mModel" || String.eqb member "mProfile" then MDocumented else MUnknown)
+  else if String.eqb cls "Printer::PrinterImpl" then (if String.eqb member "mPrinter" then MBackRef else MUnknown)
+  else if String.eqb cls "Importer::ImporterImpl" then
+    (if String.eqb member "mImporter" then MBackRef
+     else if String.eqb member "mLibrary" || String.eqb member "mImports" then MDocumented else MUnknown)
+  else if String.eqb cls "Annotator::AnnotatorImpl" then
+    (if String.eqb member "mAnnotator" then MBackRef
+     else if String.eqb member "mModel" then MDocumented
+     else if String.eqb member "mIdList" || String.eqb member "mHash" then MDerived
+     else if String.eqb member "mCounter" then MCounter else MUnknown)
+  else if String.eqb cls "Strict::StrictImpl" then (if String.eqb member "mStrict" then MDocumented else MUnknown)
+  else MUnknown.
+
+Definition is_reset (c : mclass) : bool := match c with MReset => true | _ => false end.
+Definition is_cache (c : mclass) : bool := match c with MConstCache | MDerived => true | _ => false end.
+Definition is_fixed (c : mclass) : bool := match c with MBackRef | MConst | MDocumented => true | _ => false end.
+Definition is_classified (c : mclass) : bool := match c with MUnknown => false | _ => true end.
+
+(** every member of the regenerated table is classified, and the ones classified per-call scratch are reset at the head *)
+Definition members_ok (table : list (string * string * bool)) : bool :=
+  forallb (fun e => let '(c, m, r) := e in
+                    is_classified (classify c m) && (if is_reset (classify c m) then r else true)) table.
+
+(** one service object: the value of each member; a top-level call = the head (every MReset member back to its initial
+    value) followed by the body, which may read and write every member *)
+Definition istate := string -> nat.
+Section Instance.
+  Variables (A R : Type).
+  Variable cls : string -> mclass.
+  Variable init : istate.
+  Variable body : A -> istate -> R * istate.
+  Definition head (s : istate) : istate := fun m => if is_reset (cls m) then init m else s m.
+  Definition call (a : A) (s : istate) : R * istate := body a (head s).
+  Fixpoint run_history (s : istate) (l : list A) : istate :=
+    match l with [] => s | a :: r => run_history (snd (call a s)) r end.
+  Definition result_after (ys : list A) (x : A) : R := fst (call x (run_history init ys)).
+End Instance.
